@@ -158,16 +158,25 @@ Fixpoint onehot_assigns (groups : list (list label)) : list (list (label * Qc)) 
   | g :: r => flat_map (fun v => map (cons (v, 1)) (onehot_assigns r)) g
   end.
 
+(* energies DQM.energies itself reports (it walks the variable-level adjacency lists) against the
+   energy of the case-level coefficients the model reports *)
+Definition energies_ok (p : poly) (l : list (list (label * Qc) * Qc)) : bool :=
+  forallb (fun r => Qc_eqb (energy p (sample_of_list (fst r))) (snd r)) l.
+
 Record dqm_eq_case := mkDqmEq {
   de_n : nat; de_groups : list (list label);
   de_terms : list lterm; de_lam : Qc; de_c : Qc;
-  de_before : obs; de_after : obs }.
+  de_before : obs; de_after : obs;
+  de_en_before : list (list (label * Qc) * Qc);     (* one-hot sample, DQM.energies before the call *)
+  de_en_after : list (list (label * Qc) * Qc) }.    (* ... after the call *)
 
 Definition check_dqm_eq (c : dqm_eq_case) : bool :=
   let before := obs_poly (de_before c) in
   let after := obs_poly (de_after c) in
   poly_coeff_eqb (de_n c) (add_eq_dqm (grp_of (de_groups c)) (de_terms c) (de_lam c) (de_c c) before) after
-  && forallb (pen_exact_on before after (de_terms c) (de_lam c) (de_c c)) (onehot_assigns (de_groups c)).
+  && forallb (pen_exact_on before after (de_terms c) (de_lam c) (de_c c)) (onehot_assigns (de_groups c))
+  && energies_ok before (de_en_before c) && energies_ok after (de_en_after c)
+  && (length (de_en_after c) =? length (onehot_assigns (de_groups c)))%nat.
 
 Inductive dqm_outcome :=
 | DRaised
@@ -180,7 +189,9 @@ Record dqm_ineq_case := mkDqmIneq {
   di_terms : list (label * Z);
   di_lam : Qc; di_const : Z; di_lb : Z; di_ub : Z;
   di_out : dqm_outcome;
-  di_before : obs; di_after : obs }.
+  di_before : obs; di_after : obs;
+  di_en_before : list (list (label * Qc) * Qc);     (* every one-hot sample of the old variables *)
+  di_en_after : list (list (label * Qc) * Qc) }.    (* one-hot samples incl. slack variables (all, or an evenly spaced subset) *)
 
 Definition plan_U (a : list Z) (const lb ub : Z) : Z :=
   (Z.min (sum_pos a) (ub - const) - Z.max (sum_neg a) (lb - const))%Z.
@@ -217,7 +228,11 @@ Definition dqm_ineq_oracle_ok (c : dqm_ineq_case) : bool :=
                                (min_increase before after x sas) (di_lam c)) xs
   end.
 
-Definition check_dqm_ineq (c : dqm_ineq_case) : bool := dqm_ineq_model_ok c && dqm_ineq_oracle_ok c.
+Definition check_dqm_ineq (c : dqm_ineq_case) : bool :=
+  dqm_ineq_model_ok c && dqm_ineq_oracle_ok c
+  && energies_ok (obs_poly (di_before c)) (di_en_before c)
+  && energies_ok (obs_poly (di_after c)) (di_en_after c)
+  && (length (di_en_before c) =? length (onehot_assigns (di_groups c)))%nat.
 
 (* ------------------------------------------------------------------ *)
 (* generators.binary_encoding *)
